@@ -393,3 +393,103 @@ def rule_last_piece(ctx, config='dev'):
     r.floor = len(readers) + 6
     r.check_floor()
     return r
+
+
+# ------------------------------------------------------------------------------------------------------------------------------
+# UNCHECKED-SIBLING: the unchecked slicer locates and cuts pieces exactly like its checked sibling
+
+def _closure_ret(f, b, e):
+    """normalised return expression of a closure literal / fn item handed to an adaptor"""
+    if e and e[0] == 'agg' and e[1] == 'closure':
+        cands = [c for c in f.closures_of(b) if c.path.endswith(e[2])]
+        if len(cands) == 1:
+            return nz(cands[0].expr_of_local(0))
+    return e
+
+
+def _anon(e, b_path):
+    """make a normalised expression comparable across two functions: drop body-specific names"""
+    if not isinstance(e, tuple):
+        return e
+    if e and e[0] == 'arg':
+        return ('arg', e[1])
+    if e and e[0] == 'upvar':
+        return ('upvar', e[1])
+    if e and e[0] == 'agg':
+        return ('agg', e[1], 'closure' if e[1] == 'closure' else e[2], e[3]) + tuple(_anon(x, b_path) for x in e[4:])
+    if e and e[0] == 'call':
+        name = {'get_unchecked': 'get', 'index': 'get', 'get_unchecked_mut': 'get'}.get(e[1], e[1])
+        return ('call', name) + tuple(_anon(x, b_path) for x in e[2:])
+    if e and e[0] == 'bin' and len(e) > 4:
+        e = e[:4]
+    return tuple(_anon(x, b_path) if isinstance(x, tuple) else x for x in e)
+
+
+def _slicer_signature(f, b):
+    sig = []
+    for m in [b] + f.closures_of(b):
+        for pt, t in m.calls():
+            c = t.get('callee')
+            if not c:
+                continue
+            nm = c['name']
+            tys = t.get('arg_tys') or []
+            if nm == 'binary_search_by' and len(t['args']) == 2:
+                sig.append(('search', _anon(nz(m.expr_of_operand(t['args'][0])), b.path),
+                            _anon(_closure_ret(f, b, nz(m.expr_of_operand(t['args'][1]))), b.path)))
+            elif nm == 'unwrap_or_else' and len(t['args']) == 2 and any(
+                    isinstance(x, tuple) and x and x[0] == 'call' and x[1] == 'binary_search_by' for x in _nzwalk(nz(m.expr_of_operand(t['args'][0])))):
+                sig.append(('miss', _anon(_closure_ret(f, b, nz(m.expr_of_operand(t['args'][1]))), b.path)))
+            elif nm in ('get', 'get_unchecked', 'index') and len(t['args']) == 2 and tys:
+                recv_ty = tys[0].replace("'a ", '').replace("'_ ", '')
+                idx = nz(m.expr_of_operand(t['args'][1]))
+                if 'str, usize)' in recv_ty:
+                    sig.append(('piece', _anon(idx, b.path)))
+                elif recv_ty.strip('&') == 'str' and idx and idx[0] == 'agg':
+                    sig.append(('cut', _anon(idx, b.path)))
+    return sorted(sig, key=repr)
+
+
+def rule_unchecked_sibling(ctx, config='dev'):
+    f = ctx.facts(config)
+    r = RuleResult('UNCHECKED-SIBLING', 'the range-unchecked slicer of a rope (`pub unsafe fn` that indexes the piece vector and cuts pieces '
+                                        'with get_unchecked) searches, picks and cuts pieces by the same expressions as its checked sibling '
+                                        '(the safe slicer of the same type that validates the range): piece searches (receiver and '
+                                        'comparator), the miss adjustment, the index of every piece access and the range of every cut agree')
+    unchecked, checked = [], []
+    for b in f.body_list:
+        if b.promoted is not None or b.d['kind'] == 'Closure' or b.d.get('impl_adt') != 'rope::Rope':
+            continue
+        grp = [b] + f.closures_of(b)
+        names = {(t.get('callee') or {}).get('name') for m in grp for _, t in m.calls()}
+        if 'binary_search_by' not in names:
+            continue
+        piece_access = any((t.get('callee') or {}).get('name') in ('get_unchecked', 'index', 'get') and (t.get('arg_tys') or [''])[0].find('str, usize)') >= 0
+                           for m in grp for _, t in m.calls())
+        if not piece_access:
+            continue
+        builds = any(s['k'] == 'assign' and s['r']['k'] == 'agg' and s['r'].get('ak') == 'tuple' and _is_pair_ty(s['p']['ty'])
+                     for m in grp for _, s in m.points())
+        if not builds:
+            continue                    # a reader (get_byte), not a slicer
+        (unchecked if b.d.get('unsafe_fn') else checked).append(b)
+    if len(unchecked) != 1 or len(checked) != 1:
+        r.info('slicer pair not found (unchecked: %d, checked: %d): nothing to compare' % (len(unchecked), len(checked)))
+        r.site('(crate): no checked / unchecked slicer pair', '(crate)', 'ok')
+        return r
+    u, c = unchecked[0], checked[0]
+    su, sc = _slicer_signature(f, u), _slicer_signature(f, c)
+    from collections import Counter
+    cu, cc = Counter(map(repr, su)), Counter(map(repr, sc))
+    only_u = list((cu - cc).elements())
+    only_c = list((cc - cu).elements())
+    for k in sorted(set(cu) | set(cc)):
+        r.site('%s / %s: %s' % (u.name, c.name, k[:100]), u.span(), 'ok' if cu[k] == cc[k] else 'violation')
+    if only_u or only_c:
+        r.violation('%s:%s' % (u.path, c.name), u.span(), u.path,
+                    'the unchecked slicer and its checked sibling locate or cut pieces differently (only in the unchecked one: %s; only in '
+                    'the checked one: %s): for a valid range one of the two picks the wrong piece or cuts at the wrong offset, and the '
+                    'unchecked one does so with get_unchecked' % ([x[:160] for x in only_u][:3], [x[:160] for x in only_c][:3]))
+    r.floor = 6
+    r.check_floor()
+    return r
